@@ -195,6 +195,16 @@ func genElem(r *core.Rand, o XMLOpts, depth int, scope nsScope, id *int) *XNode 
 		for i := 0; i < n; i++ {
 			if o.Mixed && r.Chance(1, 3) {
 				e.Children = append(e.Children, genText(r, o))
+				if o.Noise && r.Chance(1, 4) {
+					// character data interrupted by a comment / processing instruction: two text nodes with nothing but markup the tree
+					// does not represent in between
+					if r.Bool() {
+						e.Children = append(e.Children, &XNode{Kind: XComment, Text: " split "})
+					} else {
+						e.Children = append(e.Children, &XNode{Kind: XPI, Local: "pi", Text: "split"})
+					}
+					e.Children = append(e.Children, genText(r, o))
+				}
 			}
 			if o.Noise && r.Chance(1, 8) {
 				if r.Bool() {
